@@ -17,7 +17,10 @@ RULE = ('live bot (Owner, Misc, Config, User, Admin, Channel loaded; world.testi
         'implementation: owners after every step and after every reload are a subset (by id) of the owners before; a capability appears in an '
         'account only on `admin capability add` by a caller for whom ircdb.checkCapability(prefix, "admin") and (anticapability or '
         'checkCapability(prefix, cap)) held before the step, or on `channel capability add` by a caller holding "#chan,op"; a new account has no '
-        'capability.  non-trivial = history with at least one state change')
+        'capability; in addition every capability that appears in an account after a command is submitted, with the REAL before-state and the '
+        'recorded lookups, to the extracted decidable form grantb of the grant relation of C02_grow_only_entitled (C02_grant_decidable), '
+        'and must be allowed by it (channel-qualified arguments such as #d,op for callers holding op in #c only are generated and in the '
+        'corpus).  non-trivial = history with at least one state change')
 TRUSTED = ['users.getUserId(x) (recognition of the sender and resolution of names, C04) is an INPUT of the model: the first answer recorded '
            'for each string during the command is fed to the model, and the theorems hold for every answer stream (names are included because '
            '_nameCache goes stale: after `user changename` the old name keeps resolving until a reload); histories are cut for the '
@@ -207,6 +210,19 @@ def dump(B):
             'chans': sorted(chans), 'ignores': list(ircdb.ignores.hostmasks.keys())}
 
 
+def wire_state(B):
+    """the real databases as a model state (for the extracted grantb)"""
+    ircdb, ircutils = B['ircdb'], B['ircutils']
+    users = []
+    for i, u in ircdb.users.users.items():
+        users.append([[[i], u.name, bool(u.ignore), bool(u.secure), bool(u.hashed), u.password or '',
+                       sorted(str(c) for c in u.capabilities), sorted(str(h) for h in u.hostmasks),
+                       [[n, list(v)] for n, v in u.nicks.items()], list(u.gpgkeys)], [h for _, h in u.auth]])
+    chans = [[ircutils.toLower(k), sorted(str(x) for x in c.capabilities), bool(c.defaultAllow)]
+             for k, c in ircdb.channels.channels.items()]
+    return [users, ircdb.users.nextId, [], chans, list(ircdb.ignores.hostmasks.keys())]
+
+
 def S(v):
     return ''.join(chr(c) for c in v)
 
@@ -289,6 +305,7 @@ def run_real(B, inp, want_trace=True):
     recs, fails = [], []
     before = dump(B)
     for idx, st in enumerate(inp['steps']):
+        pre_wire = None
         del B['calls'][:]
         B['lookup_removed'][0] = 0
         unstable = False
@@ -300,6 +317,7 @@ def run_real(B, inp, want_trace=True):
         else:
             prefix = ACTORS[st['a']]
             pre = None
+            pre_wire = wire_state(B)
             if st['cmd'] in ('admin capability add', 'channel capability add'):
                 args = st['args']
                 try:
@@ -343,7 +361,15 @@ def run_real(B, inp, want_trace=True):
         for s, r in calls:
             if s not in lk:
                 lk[s] = r if isinstance(r, int) else None
-        recs.append({'dump': after, 'lk': lk, 'unstable': unstable})
+        grantq = []
+        if not st.get('op') and not unstable:
+            bcaps = {u[0]: set(u[6]) for u in before['users']}
+            nicks = [[p.split('!')[0], p] for p in ACTORS.values()]
+            env = [ACTORS[st['a']], [[k, wire.opt(v)] for k, v in lk.items()], nicks]
+            for u in after['users']:
+                for c in sorted(set(u[6]) - bcaps.get(u[0], set())):
+                    grantq.append((idx, u[0], c, [3, [pre_wire, env, st['text'], u[0], c]]))
+        recs.append({'dump': after, 'lk': lk, 'unstable': unstable, 'grantq': grantq})
         before = after
     return recs, fails
 
@@ -372,7 +398,8 @@ CAPS = ['foo', 'bar', 'admin', 'owner', 'OWNER', 'Owner', ' owner', '\towner', '
         '#c,op', '#c,foo', '#C,OP', '#c,owner', 'user.register', '-user.register', '-user', '-register', '-admin', '-add', 'bar baz', '',
         'own\ner', 'foo\n  capability owner', '-admin.capability', '{x', '[X', '\xa0owner', '#d,op', '-#c,op', '#c,-op']
 CHANS = ['#c', '#C', '#d', '&e', 'c', '#c,d', '#']
-CCAPS = ['op', 'foo', 'voice', '-op', ' op', 'owner', 'x y', '', 'OP', '-foo', 'halfop']
+CCAPS = ['op', 'foo', 'voice', '-op', ' op', 'owner', 'x y', '', 'OP', '-foo', 'halfop',
+         '#d,op', '#d,x', '#c,#d,op', '-#d,op', '#D,OP', '#d,-op', '#c,op', '#C,Voice', '&e,op', '#d,op #d,voice']   # channel-qualified: another channel's capability
 MASKS = ['anon!a@host.anon', 'plain!p@host.plain', 'adm!m@host.adm', 'boss!o@host.owner', '*!*@host.anon', 'x!y@z', '*!*@*', 'a!b@c',
          'new!n@host.new', 'nomask', 'all', 'anon', 'plain', '$a:x', '#x!y@z', 'N!e\nw@h', 'a!b@c\n', 'nl!x@host.plain\n']
 BOOLS = ['True', 'False', 'on', 'off', ' 1 ', 'maybe', 'ENABLE', '0']
@@ -381,7 +408,7 @@ BOOLS = ['True', 'False', 'on', 'off', ' 1 ', 'maybe', 'ENABLE', '0']
 def gen_init(rng):
     acc = [['boss', 'bpw', OWNER_MASK, ['owner']],
            ['adm', 'apw', ACTORS['adm'], ['admin'] + (['#c,op'] if rng.random() < 0.5 else [])],
-           ['plain', 'ppw', ACTORS['plain'], (['#c,op'] if rng.random() < 0.3 else [])]]
+           ['plain', 'ppw', ACTORS['plain'], (['#c,op'] if rng.random() < 0.3 else (['#d,op'] if rng.random() < 0.3 else []))]]
     if rng.random() < 0.15:
         acc[2][3] = acc[2][3] + ['-user.register']
     return {'accounts': acc}
@@ -472,8 +499,15 @@ INIT0 = {'accounts': [['boss', 'bpw', OWNER_MASK, ['owner']], ['adm', 'apw', ACT
                       ['plain', 'ppw', ACTORS['plain'], []]]}
 W_F1 = {'init': INIT0, 'steps': [cmdstep('anon', 'user register', ['x\n  capability owner', 'pw']), {'op': 'reload'}]}
 W_F43 = {'init': INIT0, 'steps': [cmdstep('adm', 'admin capability add', ['plain', ' owner']), {'op': 'reload'}]}
+W_XCHAN = {'init': INIT0, 'steps': [cmdstep('adm', 'channel capability add', ['#c', 'plain', '#d,op'])]}
 CORPUS = [
-    W_F1, W_F43,
+    W_F1, W_F43, W_XCHAN,
+    {'init': INIT0, 'steps': [cmdstep('adm', 'channel capability add', ['#c', 'adm', '#D,OP']), cmdstep('adm', 'channel capability add', ['#c', 'plain', '-#d,op']),
+                              cmdstep('adm', 'channel capability add', ['#c', 'plain', '#c,#d,op']), cmdstep('adm', 'channel capability remove', ['#c', 'plain', '#d,op']),
+                              cmdstep('adm', 'channel capability set', ['#c', '#d,op', '#d,x']), cmdstep('adm', 'channel capability unset', ['#c', '#d,op']),
+                              cmdstep('adm', 'channel capability add', ['#d', 'plain', 'op']), cmdstep('plain', 'channel capability add', ['#c', 'plain', '#c,op']),
+                              cmdstep('adm', 'channel capability add', ['#c', 'plain', 'voice']), cmdstep('adm', 'channel capability remove', ['#c', 'plain', '#c,voice']),
+                              {'op': 'reload'}]},
     {'init': INIT0, 'steps': [cmdstep('adm', 'admin capability add', ['plain', 'owner']), cmdstep('adm', 'admin capability add', ['plain', 'OWNER']),
                               cmdstep('adm', 'admin capability add', ['plain', 'foo']), cmdstep('adm', 'admin capability add', ['plain', 'trusted']),
                               cmdstep('plain', 'admin capability add', ['plain', 'bar']), cmdstep('adm', 'channel capability add', ['#c', 'plain', 'op']),
@@ -542,10 +576,21 @@ def run(ctx):
         batch.append([0, [init_wire(h['init']), wire_ops(h, recs)[:cut]]])
         meta.append((h, recs, cut))
     batch.append([2, []])
+    nh = len(batch)
+    gq = []
+    for h, recs, cut in meta:
+        for r in recs:
+            for idx, uid, c, q in r['grantq']:
+                gq.append((h, idx, uid, c))
+                batch.append(q)
     outs = ctx.model(batch)
-    if outs[-1] is not None and outs[-1] != 1:
-        ctx.disagree({'table': 'T02.SPECS'}, outs[-1], 1, 'converter lists of the modelled commands changed (specs_ok is false)')
-    for (h, recs, cut), out in zip(meta, outs[:-1]):
+    if outs[nh - 1] is not None and outs[nh - 1] != 1:
+        ctx.disagree({'table': 'T02.SPECS'}, outs[nh - 1], 1, 'converter lists of the modelled commands changed (specs_ok is false)')
+    for (h, idx, uid, c), o in zip(gq, outs[nh:]):
+        ctx.dist['grant-oracle:%s' % ('allowed' if o == 1 else 'REFUSED' if o == 0 else 'n/a')] += 1
+        if o == 0:
+            ctx.fail({'init': h['init'], 'steps': h['steps'][:idx + 1]}, grant_detail(h, idx, uid, c))
+    for (h, recs, cut), out in zip(meta, outs[:nh - 1]):
         if out is None:
             continue
         if isinstance(out, tuple):
@@ -564,11 +609,26 @@ def run(ctx):
                 ctx.dist['effect:%d' % out[i][3]] += 1
 
 
+def grant_detail(h, idx, uid, c):
+    st = h['steps'][idx]
+    return ('grant: capability %r appeared in account %r after %r from %s, which the grant relation of C02_grow_only_entitled '
+            '(extracted grantb, evaluated on the real before-state) does not allow' % (c, uid, st.get('text'), st.get('a')))
+
+
+def grant_failures(ctx, inp, recs):
+    qs = [(idx, uid, c, q) for r in recs for idx, uid, c, q in r['grantq']]
+    if not qs:
+        return []
+    outs = ctx.model([q for _, _, _, q in qs])
+    return [(idx, grant_detail(inp, idx, uid, c)) for (idx, uid, c, _), o in zip(qs, outs) if o == 0]
+
+
 def replay(ctx, inp):
     B = bot()
     recs, fails = run_real(B, inp)
+    fails = fails + grant_failures(ctx, inp, recs)
     if fails:
-        return '; '.join('step %d: %s' % f for f in fails[:3])
+        return '; '.join('step %d: %s' % f for f in sorted(fails)[:3])
     return None
 
 
@@ -576,14 +636,17 @@ def shrink(ctx, inp):
     B = bot()
     want = None
     recs, fails = run_real(B, inp)
+    fails = fails + grant_failures(ctx, inp, recs)
     if not fails:
         return inp
-    want = fails[-1][1].split(':')[0]
+    want = sorted(fails)[-1][1].split(':')[0]
 
     def bad(steps):
         if not steps:
             return False
-        r, f = run_real(B, {'init': inp['init'], 'steps': list(steps)})
+        cand = {'init': inp['init'], 'steps': list(steps)}
+        r, f = run_real(B, cand)
+        f = f + grant_failures(ctx, cand, r)
         return any(i == len(steps) - 1 and d.split(':')[0] == want for i, d in f)
     steps = inp['steps']
     last = steps[-1:]
